@@ -63,6 +63,13 @@ def _where(e):
     return next((f'{f.filename.split("/chython/")[-1]}:{f.name}' for f in reversed(tb) if '/chython/' in f.filename), '?')
 
 
+def _library_exception(e):
+    """True when the exception was raised inside chython (deepest frame), i.e. not by the harness itself"""
+    import traceback
+    tb = traceback.extract_tb(e.__traceback__)
+    return bool(tb) and '/chython/' in tb[-1].filename or any('/chython/' in f.filename for f in tb[-3:])
+
+
 class Acc:
     def __init__(self):
         self.n = 0
@@ -88,7 +95,7 @@ def _perm_of(mp):
 # ---------------------------------------------------------------------------------------------------------------------------
 # contracts of one function on one molecule
 # ---------------------------------------------------------------------------------------------------------------------------
-def check_function(acc, fname, m0, src, r, renumber_ok=True, label=''):
+def _check_function(acc, fname, m0, src, r, renumber_ok=True, label=''):
     """m0 is not modified.  src: text identifying the input (SMILES + decoration)"""
     f, kind, ren_decorated = FUNCS[fname]
     valid = O.weakly_valid(m0)          # the statement's precondition: every hydrogen count defined (and no multi-bonded hydrogen)
@@ -105,14 +112,16 @@ def check_function(acc, fname, m0, src, r, renumber_ok=True, label=''):
             acc.stat('exception-on-invalid-input')
         return None
     s_in, s_a = str(m0), str(a)
-    sig = O.resonance_signature(m0, a)
+    uses_resonance = fname.startswith(('fix_resonance', 'standardize(', 'canonicalize('))  # standardize_charges does not call it
+    sig = O.resonance_signature(m0, a) if uses_resonance else None
 
     def key(contract, out=None, inp=None):
         """root-cause family: contract@function, or the recorded fix_resonance root cause when its signature is in the result"""
-        sg = sig or (O.resonance_signature(inp, out) if out is not None else None)
+        sg = sig or (O.resonance_signature(inp, out) if out is not None and uses_resonance else None)
         return f'resonance:{sg}' if sg else f'{contract}@{fname}'
     if s_in != s_a:
         acc.keys.add((fname, s_in))  # non-trivial: the function changed the molecule
+        acc.stat(f'changed-by:{fname}')
     if O.heavy(a) != O.heavy(m0):
         acc.v(key('heavy'), f'{fname} changed the heavy-atom multiset of {src}: {s_in} -> {s_a}', {'smiles': src, 'function': fname, 'signature': sig}, s_a)
     if valid:
@@ -139,11 +148,15 @@ def check_function(acc, fname, m0, src, r, renumber_ok=True, label=''):
     acc.n += 1
     try:
         f(b)
-        if str(b) != s_a:
+        if str(b) != s_a and not sig and uses_resonance and _resonance_flipflop(m0, a):
+            # recorded root cause: fix_resonance moves the charge of N-substituted amidinium/guanidinium cations back and forth
+            acc.v('resonance:not-idempotent', f'{fname}: fix_resonance alone is not idempotent on {src}: {s_a} -> {b}',
+                  {'smiles': src, 'function': fname, 'signature': sig}, str(b))
+        elif str(b) != s_a:
             acc.v(key('idempotent', b, a), f'{fname} twice differs from once on {src}: {s_a} -> {b}', {'smiles': src, 'function': fname, 'signature': sig}, str(b))
     except Exception as e:
         if valid:
-            acc.v(f'exc:{type(e).__name__}@{fname}:twice', f'second {fname} raised {type(e).__name__}: {e} at {_where(e)} on {s_a}',
+            acc.v(f'exc:{type(e).__name__}@{fname}', f'second {fname} raised {type(e).__name__}: {e} at {_where(e)} on {s_a}',
                   {'smiles': src, 'function': fname, 'signature': sig}, f'{type(e).__name__}: {e}')
     # renumbering
     if renumber_ok:
@@ -157,7 +170,7 @@ def check_function(acc, fname, m0, src, r, renumber_ok=True, label=''):
                 f(p)
             except Exception as e:
                 if valid:
-                    acc.v(f'exc:{type(e).__name__}@{fname}:renumbered', f'{fname} raised {type(e).__name__}: {e} at {_where(e)} on renumbered {src}',
+                    acc.v(f'exc:{type(e).__name__}@{fname}', f'{fname} raised {type(e).__name__}: {e} at {_where(e)} on renumbered {src}',
                           {'smiles': src, 'function': fname, 'permutation': _perm_of(mp)}, f'{type(e).__name__}: {e}')
                 return a
             if str(p) != s_a:
@@ -165,7 +178,7 @@ def check_function(acc, fname, m0, src, r, renumber_ok=True, label=''):
                 a2.remap(mp)
                 if str(a2) != s_a:
                     acc.stat('gap_hits:output-string-not-numbering-independent(C01)')
-                elif _resonance_choice(m0, p0):
+                elif uses_resonance and _resonance_choice(m0, p0):
                     # recorded root cause: fix_resonance pairs donors and acceptors in set.pop() order of the atom numbers
                     acc.v('resonance:choice-by-atom-number', f'{fname}: fix_resonance alone already depends on numbering for {src}: {s_a} vs {p}',
                           {'smiles': src, 'function': fname, 'permutation': _perm_of(mp)}, str(p))
@@ -173,6 +186,18 @@ def check_function(acc, fname, m0, src, r, renumber_ok=True, label=''):
                     acc.v(key('renumber', p, p0), f'{fname} depends on numbering for {src}: {s_a} vs {p} under {_perm_of(mp)[:120]}',
                           {'smiles': src, 'function': fname, 'permutation': _perm_of(mp)}, str(p))
     return a
+
+
+def check_function(acc, fname, m0, src, r, renumber_ok=True, label=''):
+    try:
+        return _check_function(acc, fname, m0, src, r, renumber_ok, label)
+    except Exception as e:
+        if not _library_exception(e):
+            raise  # harness error: never a violation
+        # the function returned, but reading its result (canonical string, copy, composition) fails inside the library
+        acc.v(f'exc:{type(e).__name__}@{fname}:reading-result', f'after {fname} on {src} the library raises {type(e).__name__}: {e} at {_where(e)}',
+              {'smiles': src, 'function': fname}, f'{type(e).__name__}: {e}')
+        return None
 
 
 def _resonance_choice(m0, p0):
@@ -189,6 +214,24 @@ def _resonance_choice(m0, p0):
             continue
         if str(x) != str(y):
             return True
+    return False
+
+
+def _resonance_flipflop(*mols):
+    """attribution experiment: fix_resonance twice differs from fix_resonance once (given form or Kekule form)"""
+    for m in mols:
+        for kek in (False, True):
+            x = m.copy()
+            try:
+                if kek:
+                    x.kekule()
+                x.fix_resonance()
+                s1 = str(x)
+                x.fix_resonance()
+            except Exception:
+                continue
+            if str(x) != s1:
+                return True
     return False
 
 
@@ -263,7 +306,7 @@ def check_tautomers(acc, m0, src, r, renumber_ok):
             try:
                 tp = list(itertools.islice(p.enumerate_tautomers(limit=TAUT_LIMIT * 4), TAUT_LIMIT))
             except Exception as e:
-                acc.v(f'exc:{type(e).__name__}@enumerate_tautomers:renumbered', f'enumerate_tautomers raised {type(e).__name__}: {e} on renumbered {src}',
+                acc.v(f'exc:{type(e).__name__}@enumerate_tautomers', f'enumerate_tautomers raised {type(e).__name__}: {e} on renumbered {src}',
                       {'smiles': src, 'permutation': _perm_of(mp)}, f'{type(e).__name__}: {e}')
                 return
             if len(tp) < TAUT_LIMIT and {str(x) for x in tp} != {str(x) for x in ts}:
@@ -325,6 +368,20 @@ def _corpus_worker(item):
     base = d if d is not None and r.random() < .5 else m
     x = base | smiles(ion)
     inputs.append((x, f'{str(base)} . {ion}', False))
+    # salt / zwitterion variant so that neutralize meets donors and acceptors (1-2 cationic groups, 1-2 anions: all three branches)
+    s_mol, parts = m, []
+    for _ in range(r.choice((1, 1, 2))):
+        cg = r.choice(O.CATION_GROUPS)
+        d2 = decorate(s_mol, cg, r)
+        if d2 is not None:
+            s_mol = d2
+            parts.append(cg)
+    if parts:
+        ans = [r.choice(O.ANIONS) for _ in range(r.choice((1, 1, 2)))]
+        for an in ans:
+            s_mol = s_mol | smiles(an)
+        inputs.append((s_mol, f'{smi} + ' + ' + '.join(parts) + ' . ' + ' . '.join(ans), False))
+        acc.stat('salts')
     for mol, src, fixed_corpus in inputs:
         if len(acc.samples) < 1 and not fixed_corpus:
             acc.samples.append({'input': src, 'canonical': str(mol), 'valence_valid': not mol.check_valence()})
@@ -341,6 +398,17 @@ def _rule_worker(item):
     _imports()
     name, i = item
     acc = Acc()
+    try:
+        return _rule_worker_(acc, name, i)
+    except Exception as e:
+        if not _library_exception(e):
+            raise
+        acc.v(f'exc:{type(e).__name__}@rule:{name}[{i}]', f'rule {name}[{i}] on its own instance: the library raises {type(e).__name__}: {e} at {_where(e)}',
+              {'rule': f'{name}[{i}] '}, f'{type(e).__name__}: {e}')
+        return acc.pack()
+
+
+def _rule_worker_(acc, name, i):
     tabs = {(n, j): (q, af, bf, t) for n, j, q, af, bf, t in O.rule_tables()}
     q, af, bf, taut = tabs[(name, i)]
     rid = f'{name}[{i}] {q}'
@@ -453,24 +521,19 @@ def replay(rec):
     src = w.get('smiles', '')
     fname = w.get('function')
     r = random.Random(f'{env.SEED}:replay:{src}')
-    if ' + ' in src:
-        s, g = src.split(' + ')
-        m = parse(s)
-        mols = []
-        for k in range(40):  # attachment site was a seeded choice: try the possible sites
-            d = decorate(m, g, random.Random(k))
-            if d is not None:
-                mols.append(d)
-    elif ' . ' in src:
-        s, ion = src.split(' . ')
-        mols = [smiles(s) | smiles(ion)]
-        try:
-            mols[0].kekule()
-            mols[0].thiele()
-        except Exception:
-            pass
-    else:
-        mols = [parse(src)]
+    head, *ions = src.split(' . ')
+    smi, *groups = head.split(' + ')
+    mols = []
+    for k in range(24 if groups else 1):  # attachment sites were seeded choices: try the possible sites
+        m = parse(smi)
+        rr = random.Random(k)
+        for g in groups:
+            m = decorate(m, g, rr) if m is not None else None
+        if m is None:
+            continue
+        for ion in ions:
+            m = m | smiles(ion)
+        mols.append(m)
     for m in mols:
         for k in range(6):
             if fname in FUNCS:
